@@ -856,6 +856,7 @@ enum Alt {
     Single(String),       // 'text'
     Mixed(String, String), // "$N"$M
     ExpErr,               // ${u?}: the expansion of this alternative fails
+    Word(Vec<WUnit>),     // a pattern word built from every quoting mechanism (the `w` cases' encoding)
 }
 
 fn parse_alt(t: &str) -> Option<Alt> {
@@ -864,6 +865,7 @@ fn parse_alt(t: &str) -> Option<Alt> {
     }
     let (m, h) = t.split_at(1);
     Some(match m {
+        "w" => Alt::Word(parse_word(h, 0)?),
         "v" => Alt::Var(dec_str(h)?),
         "q" => Alt::Quoted(dec_str(h)?),
         "l" => Alt::Lit(dec_str(h)?),
@@ -884,6 +886,7 @@ fn show_alt(a: &Alt) -> String {
         Alt::Single(s) => format!("s{}", enc_str(s)),
         Alt::Mixed(a, b) => format!("m{}_{}", enc_str(a), enc_str(b)),
         Alt::ExpErr => "x".to_string(),
+        Alt::Word(w) => format!("w{}", enc_word(w, 0)),
     }
 }
 
@@ -911,6 +914,11 @@ fn alt_pcs(a: &Alt) -> Vec<Pc> {
         Alt::Quoted(s) | Alt::Single(s) => s.chars().map(|c| (c, true)).collect(),
         Alt::Mixed(q, p) => q.chars().map(|c| (c, true)).chain(pcs_unquoted(p)).collect(),
         Alt::ExpErr => vec![],
+        Alt::Word(w) => {
+            let mut ms = vec![];
+            word_marks(w, false, &mut ms, &mut false);
+            marks_to_pcs(&ms)
+        }
     }
 }
 
@@ -920,7 +928,11 @@ fn run_case_command(subj: Option<&str>, items: &[(char, char, Vec<Alt>)]) -> (St
     let subj = subj.unwrap_or("");
     let mut params = vec![subj.to_string()];
     // entered with `$?` = 7 so that the status the command leaves is its own doing
-    let mut script = String::from(if subj_err { "st 7\ncase ${u?} in " } else { "st 7\ncase $1 in " });
+    // every eighth command runs under xtrace (case.rs `trace_subject`; the trace goes to stderr, nothing observed
+    // may change)
+    let xtrace = (subj.len() + items.iter().map(|(_, _, a)| a.len()).sum::<usize>() + items.len()) % 8 == 0;
+    let mut script = String::from(if xtrace { "set -x\n" } else { "" });
+    script.push_str(if subj_err { "st 7\ncase ${u?} in " } else { "st 7\ncase $1 in " });
     for (k, (cont, body, alts)) in items.iter().enumerate() {
         script.push('(');
         for (j, a) in alts.iter().enumerate() {
@@ -945,6 +957,7 @@ fn run_case_command(subj: Option<&str>, items: &[(char, char, Vec<Alt>)]) -> (St
                     script.push_str(&format!("${{{}}}", params.len()));
                 }
                 Alt::ExpErr => script.push_str("${u?}"),
+                Alt::Word(w) => script.push_str(&word_script(w, &mut params)),
             }
         }
         script.push_str(&match body {
@@ -1085,6 +1098,18 @@ fn rand_alt(r: &mut Rng, subj: &str) -> Alt {
     };
     if r.chance(1, 25) {
         return Alt::ExpErr;
+    }
+    if r.chance(1, 6) {
+        // a word with quoting of every kind; one the independent reading has an opinion on (no raw backslash
+        // directly before a quotation mark)
+        loop {
+            let w = rand_wunits(r, 0, false);
+            let mut skip = false;
+            word_marks(&w, false, &mut vec![], &mut skip);
+            if !skip {
+                return Alt::Word(w);
+            }
+        }
     }
     match r.below(10) {
         0..=3 => Alt::Var(text(r)),
@@ -1254,6 +1279,21 @@ fn word_script(w: &[WUnit], params: &mut Vec<String>) -> String {
         .collect()
 }
 
+/// The word reads back as the same tree when it is lexed in TEXT context (the word of a trim inside `"${@#…}"`):
+/// no single quotes, an unquoted backslash only before `$` `` ` `` `"` `\` `}`.
+fn text_safe(w: &[WUnit]) -> bool {
+    w.iter().all(|u| match u {
+        WUnit::Lit(_) | WUnit::Param(_) => true,
+        WUnit::Bs(c) => DQ_ESC.contains(c) || *c == '}',
+        WUnit::Sq(_) => false,
+        WUnit::Alt(w) => text_safe(w),
+        WUnit::Dq(t) => t.iter().all(|u| match u {
+            TUnit::Alt(w) => text_safe(w),
+            _ => true,
+        }),
+    })
+}
+
 /// Independent reading of the word (XCU 2.2 / 2.13.1): the characters left by quote removal, each with "was it
 /// quoted by any mechanism"; `raw_bs_before_quote` = an unquoted backslash made by an expansion stands where the
 /// next thing in the word is a quotation mark (not judged).
@@ -1328,11 +1368,20 @@ fn run_word_case(subj: &str, word: &[WUnit]) -> (String, String) {
     use futures_util::FutureExt as _;
     let mut params = vec![subj.to_string()];
     let w = word_script(word, &mut params);
-    let script = format!(
+    let mut script = format!(
         "case $1 in ({w}) echo 1;; (*) echo 0;; esac\n\
          a=${{1#{w}}} b=${{1##{w}}} c=${{1%{w}}} d=${{1%%{w}}}\n\
          probe \"$a\" \"$b\" \"$c\" \"$d\"\n"
     );
+    // the Array arm of `trim::apply` with the same word: all positional parameters (the subject and the values the
+    // word's own `${N}` refer to) trimmed at once — where the word survives being lexed in TEXT context
+    let arrays = text_safe(word);
+    if arrays {
+        script.push_str(&format!(
+            "probe \"${{@#{w}}}\"\nprobe \"${{@##{w}}}\"\nprobe \"${{@%{w}}}\"\nprobe \"${{@%%{w}}}\"\n"
+        ));
+    }
+    let all_params = params.clone();
     let mut config = yverif::shell::Config::new(&script);
     config.positional_params = params;
     let wtext = w.clone();
@@ -1360,7 +1409,13 @@ fn run_word_case(subj: &str, word: &[WUnit]) -> (String, String) {
     let arm = lines.next().unwrap_or("none").to_string();
     let probe = lines.next().unwrap_or("");
     let t = probe.split_once(':').map(|x| x.1).unwrap_or("?").to_string();
-    let obs = format!("arm={arm} T={t} X={}", attrs.unwrap_or_else(|| "?".into()));
+    let arr_obs: Vec<String> =
+        lines.take(4).map(|l| l.split_once(':').map(|x| x.1).unwrap_or("?").to_string()).collect();
+    let obs = if arrays {
+        format!("arm={arm} T={t} A={} X={}", arr_obs.join("/"), attrs.unwrap_or_else(|| "?".into()))
+    } else {
+        format!("arm={arm} T={t} X={}", attrs.unwrap_or_else(|| "?".into()))
+    };
 
     // oracle: the property's clauses on the independent reading of the word
     let mut ms = vec![];
@@ -1393,6 +1448,29 @@ fn run_word_case(subj: &str, word: &[WUnit]) -> (String, String) {
         }
         if got.get(i).map(|x| x.to_string()) != Some(enc_str(&want[i])) {
             return (obs, format!("FAIL:trim {i} want {}", enc_str(&want[i])));
+        }
+    }
+    if arrays {
+        let trim_one = |v: &str, i: usize| -> String {
+            let s: Vec<char> = v.chars().collect();
+            let n = s.len();
+            let pre: Vec<usize> = (0..=n).filter(|&k| gm(&toks, &s[..k])).collect();
+            let suf: Vec<usize> = (0..=n).filter(|&k| gm(&toks, &s[k..])).collect();
+            match i {
+                0 => pre.first().map(|&k| s[k..].iter().collect()).unwrap_or(v.to_string()),
+                1 => pre.last().map(|&k| s[k..].iter().collect()).unwrap_or(v.to_string()),
+                2 => suf.last().map(|&k| s[..k].iter().collect()).unwrap_or(v.to_string()),
+                _ => suf.first().map(|&k| s[..k].iter().collect()).unwrap_or(v.to_string()),
+            }
+        };
+        for i in 0..4 {
+            if has_seq && i < 2 {
+                continue;
+            }
+            let want: Vec<String> = all_params.iter().map(|v| enc_str(&trim_one(v, i))).collect();
+            if arr_obs.get(i) != Some(&want.join(",")) {
+                return (obs, format!("FAIL:array trim {i} want {}", want.join(",")));
+            }
         }
     }
     (obs, "ok".into())
@@ -1860,6 +1938,25 @@ fn main() {
             let t = rand_text(&mut r, &p);
             go(mcase(esc, &p, &t));
         }
+    }
+
+    // 3b. long texts (12..=28 characters, non-ASCII included) against structured patterns with at most two `*`
+    // (the backtracking model and the brute-force Spec are polynomial in the text with the number of stars as the
+    // exponent): many match starts, long runs for rfind's boundary stepping, trims that remove long parts
+    let nlong = if thorough { 6_000 } else { 300 };
+    let mut rl = Rng::new(opts.seed ^ 0x10_46);
+    let mut made = 0;
+    while made < nlong {
+        let esc = rl.chance(1, 2);
+        let p = rand_pattern(&mut rl, esc);
+        if p.matches('*').count() > 2 {
+            continue;
+        }
+        let pool: Vec<char> = p.chars().filter(|c| !"*?[]\\".contains(*c)).chain(['a', 'b', 'a', '.', 'é', '𝄞']).collect();
+        let n = 12 + rl.below(17);
+        let t: String = (0..n).map(|_| *rl.pick(&pool)).collect();
+        go(mcase(esc, &p, &t));
+        made += 1;
     }
 
     // 6. hand-built syntax trees through `from_ast` / `from_ast_and_config`
